@@ -246,8 +246,11 @@ def run(case, res: Result):
                 segs = [s for s in g.segments if re.sub(r"\s+\d+$", "", s.title or "") == "GCC"]
                 flat = [(p.x, p.y) for s in segs for p in s.data_points]
                 if flat:
-                    top = max(flat, key=lambda p: p[1])
-                    botm = min(flat, key=lambda p: p[1])
+                    # the end of the curve is the emitted point of highest (lowest) temperature; a latent stream at the end of the range puts
+                    # several points on the same DISPLAYED temperature (25.005 and 25.0 both read 25.0): the end is the one of them nearest to the target
+                    ymax, ymin = max(p[1] for p in flat), min(p[1] for p in flat)
+                    top = min((p for p in flat if p[1] >= ymax - 0.011), key=lambda p: abs(p[0] - Qh))
+                    botm = min((p for p in flat if p[1] <= ymin + 0.011), key=lambda p: abs(p[0] - Qc))
                     if abs(top[0] - Qh) > 0.016 or abs(botm[0] - Qc) > 0.016:
                         res.violate("gcc_ends_ne_targets", case, {"record": key, "top": top, "bottom": botm, "Qh": Qh, "Qc": Qc}, "gcc_ends_ne_targets:" + tag)
         if n_nonempty >= 3:
